@@ -126,7 +126,7 @@ class TraceContainer:
         If more than one scope trace is loaded, scopes are prepended by the tid of their trace.
         '''
         if len(self.traces) > 1:
-            scopes = [(trace.id + trace.SCOPE_SEPERATOR + scope) for trace in self.traces.values() for scope in trace.scopes]
+            scopes = [(trace.tid + trace.SCOPE_SEPERATOR + scope) for trace in self.traces.values() for scope in trace.scopes]
         else:
             scopes = [scope for trace in self.traces.values() for scope in trace.scopes]
 
